@@ -5,8 +5,13 @@ import PortusModel.Props.C13
 /-!
 # C20, acceptance: every well-typed program is compiled and serialized
 
-`well_typed_accepted`: a parsed program that passes `Typing.WellTyped` is accepted by `compile`
-and its image by `Bin.serialize`.
+`well_typed_accepted` (`Accept2.lean`): a parsed program that passes `Typing.WellTyped` is accepted by
+`compile` and its image by `Bin.serialize`.
+
+This file: what serializes, the relation between a typing environment and a register file, the stage
+lemma for *pure* expressions (`compile_pure`, used for conditions), the arms of `Op::Bind`, the
+invariant between statements, conditions (`compile_flag`). Expressions with assignments used as
+values, statements, bodies and events are in `AcceptValue.lean`.
 -/
 namespace Portus.Lang.Typing
 open Portus Portus.Lang
@@ -233,7 +238,7 @@ theorem compile_pure {Γ : Env} {named : List (Name × Reg)} (hf : Fwd Γ named)
               exact ⟨by simp, _, _, rfl⟩
           · cases hty
 
-/-! ## The `Op::Bind` arm in the three situations that occur in well-typed programs -/
+/-! ## The `Op::Bind` arm on a typed target (the untyped target is in `AcceptValue.lean`) -/
 
 theorem compileAtom_known {sc : Scope} {x : Name} {r : Reg} (hg : sc.get x = some r) :
     compileAtom (.name x) sc = .ok ⟨[], r, sc⟩ := by
@@ -277,26 +282,6 @@ theorem combineBind_guarded {left : Reg} (sc : Scope) (pre : List Instr) (last :
   simp only [List.getLast?_append, List.getLast?_singleton, Option.some_or]
   rw [if_pos hlast, setLastRes_append]
 
-theorem combineBind_newLocal {x : Name} {nl : Nat} {right : Reg} (sc : Scope) (is : List Instr)
-    (hg : sc.get x = some (.local nl (.name x))) (hr : right ≠ .none) (ht : ∀ s, right.getType ≠ .name s) :
-    combineBind is (.local nl (.name x)) right sc =
-      .ok ⟨is ++ [{ res := .local nl right.getType, op := .bind, left := .local nl right.getType, right := right }],
-           .local nl right.getType,
-           { sc with named := regSet x (.local nl right.getType) sc.named }⟩ := by
-  have hg' : regGet x sc.named = some (.local nl (.name x)) := hg
-  have hbt : bindTarget (.local nl (.name x)) right sc =
-      .ok (.local nl right.getType, { sc with named := regSet x (.local nl right.getType) sc.named }) := by
-    unfold bindTarget
-    rw [show (Reg.local nl (Lang.Ty.name x)).getType = .name x from rfl]
-    simp only
-    cases h : right.getType with
-    | name s => exact absurd h (ht s)
-    | _ => simp only [Scope.updateType, hg']
-  unfold combineBind
-  rw [hbt]
-  simp only [bindEmit]
-  rw [if_neg hr, if_pos (by rfl)]
-
 theorem kindOk_assignable {k : Kind} {r : Reg} (h : kindOk k r = true) (hk : notReadOnly k = true) :
     (isRC r || isTIL r) = true := by
   cases k <;> cases r <;> simp_all [kindOk, notReadOnly, isRC, isTIL]
@@ -329,131 +314,9 @@ theorem Inv.congr {Γ : Env} {sc sc' : Scope} (hi : Inv Γ sc) (hn : sc'.named =
 theorem lookup_cons (y : Name) (x : Name) (kt : Kind × Ty) (Γ : Env) :
     lookup y ((x, kt) :: Γ) = if x = y then some kt else lookup y Γ := rfl
 
-/-- `(:= x e)`, `x` known and assignable -/
-theorem stmt_plain_known {Γ : Env} {sc : Scope} {x : Name} {k : Kind} {τx τ : Ty} {e : Expr}
-    (hi : Inv Γ sc) (ht0 : sc.tmp = []) (hx : lookup x Γ = some (k, τx)) (hk : notReadOnly k = true)
-    (hty : typeOf Γ e = some τ) (hlit : Frag.litsOkE e = true) (htmp : tmps e ≤ 8) :
-    ∃ c, compileExpr (.sexp .bind (.atom (.name x)) e) sc = .ok c ∧ c.reg ≠ .none ∧ Inv Γ c.sc ∧
-      ∀ i ∈ c.instrs, instrOk i = true := by
-  obtain ⟨r, hg, hkr, htr⟩ := hi.fwd x k τx hx
-  obtain ⟨cr, e2, n2, l2, _, m2, k2, i2, _, _⟩ :=
-    compile_pure hi.fwd e τ hty hlit sc rfl (by rw [ht0]; simpa using htmp)
-  rw [compileExpr_sexp, compileExpr_atom, compileAtom_known (show sc.get x = some r from hg), Out.bind_ok]
-  simp only
-  rw [e2, Out.bind_ok, combine_bind,
-    combineBind_typed _ _ (tyMatch_not_name htr) (regOk_ne_none k2) (kindOk_assignable hkr hk)]
-  refine ⟨_, rfl, regOk_ne_none (kindOk_regOk hkr), hi.congr n2 l2, ?_⟩
-  intro i hi'
-  simp only [List.nil_append, List.mem_append, List.mem_singleton] at hi'
-  rcases hi' with hi' | rfl
-  · exact i2 i hi'
-  · simp only [instrOk, Bool.and_eq_true]
-    exact ⟨⟨⟨rfl, kindOk_regOk hkr⟩, kindOk_regOk hkr⟩, k2⟩
-
-/-- `(:= x (if c v))`, `(:= x (!if c v))`, `(:= x (ewma a v))`, `x` declared -/
-theorem stmt_guarded {Γ : Env} {sc : Scope} {x : Name} {o : Op} {τc τv : Ty} {c v : Expr}
-    (ho : o = .if ∨ o = .notIf ∨ o = .ewma)
-    (hi : Inv Γ sc) (ht0 : sc.tmp = []) (hx : guardedTargetDeclared Γ x = true)
-    (hc : typeOf Γ c = some τc) (hv : typeOf Γ v = some τv)
-    (hlc : Frag.litsOkE c = true) (hlv : Frag.litsOkE v = true) (htmp : tmps c + tmps v ≤ 8) :
-    ∃ cc, compileExpr (.sexp .bind (.atom (.name x)) (.sexp o c v)) sc = .ok cc ∧ cc.reg ≠ .none ∧
-      Inv Γ cc.sc ∧ ∀ i ∈ cc.instrs, instrOk i = true := by
-  unfold guardedTargetDeclared at hx
-  cases hlk : lookup x Γ with
-  | none => rw [hlk] at hx; cases hx
-  | some kt =>
-    obtain ⟨k, τx⟩ := kt
-    rw [hlk] at hx
-    simp only [decide_eq_true_eq] at hx
-    subst hx
-    obtain ⟨r, hg, hkr, htr⟩ := hi.fwd x _ τx hlk
-    obtain ⟨cl, e1, n1, l1, t1, _, k1, i1, _, _⟩ :=
-      compile_pure hi.fwd c τc hc hlc sc rfl (by rw [ht0]; simp only [List.length_nil]; omega)
-    obtain ⟨cr, e2, n2, l2, _, _, k2, i2, _, _⟩ :=
-      compile_pure hi.fwd v τv hv hlv cl.sc n1 (by rw [t1, ht0]; simp only [List.length_nil]; omega)
-    rw [compileExpr_sexp, compileExpr_atom, compileAtom_known (show sc.get x = some r from hg), Out.bind_ok]
-    simp only
-    rw [compileExpr_sexp, e1, Out.bind_ok, e2, Out.bind_ok,
-      combine_guard ho _ _ (regOk_ne_none k1) (regOk_ne_none k2), Out.bind_ok]
-    simp only [List.nil_append]
-    rw [combine_bind, combineBind_guarded _ _ _ (tyMatch_not_name htr) (kindOk_var hkr) rfl]
-    refine ⟨_, rfl, regOk_ne_none (kindOk_regOk hkr), hi.congr (n2.trans rfl) (l2.trans l1), ?_⟩
-    intro i hi'
-    simp only [List.mem_append, List.mem_singleton] at hi'
-    rcases hi' with (hi' | hi') | rfl
-    · exact i1 i hi'
-    · exact i2 i hi'
-    · simp only [instrOk, Bool.and_eq_true]
-      refine ⟨⟨⟨?_, kindOk_regOk hkr⟩, k1⟩, k2⟩
-      rcases ho with rfl | rfl | rfl <;> rfl
-
 theorem lookup_ne_of_none_some {Γ : Env} {x y : Name} {kt : Kind × Ty} (hx : lookup x Γ = none)
     (hy : lookup y Γ = some kt) : y ≠ x := by
   intro e; subst e; rw [hx] at hy; cases hy
-
-/-- `(:= x e)`, `x` unknown: a new local -/
-theorem stmt_plain_new {Γ : Env} {sc : Scope} {x : Name} {τ : Ty} {e : Expr}
-    (hi : Inv Γ sc) (ht0 : sc.tmp = []) (hx : lookup x Γ = none) (hloc : numLocals Γ < 6)
-    (hty : typeOf Γ e = some τ) (hlit : Frag.litsOkE e = true) (htmp : tmps e ≤ 8) :
-    ∃ c, compileExpr (.sexp .bind (.atom (.name x)) e) sc = .ok c ∧ c.reg ≠ .none ∧
-      Inv ((x, Kind.loc, τ) :: Γ) c.sc ∧ ∀ i ∈ c.instrs, instrOk i = true := by
-  have hg : sc.get x = none := hi.bwd x hx
-  have hnl : sc.numLocal < 6 := by rw [hi.nloc]; exact hloc
-  -- the scope after `compileAtom`
-  have hf1 : Fwd Γ (regInsert x (.local sc.numLocal (.name x)) sc.named) := by
-    intro y k τy hy
-    obtain ⟨r, h1, h2, h3⟩ := hi.fwd y k τy hy
-    exact ⟨r, by rw [regGet_regInsert_ne (lookup_ne_of_none_some hx hy)]; exact h1, h2, h3⟩
-  obtain ⟨cr, e2, n2, l2, _, m2, k2, i2, _, _⟩ :=
-    compile_pure hf1 e τ hty hlit
-      { sc with numLocal := sc.numLocal + 1, named := regInsert x (.local sc.numLocal (.name x)) sc.named }
-      rfl (by rw [ht0]; simpa using htmp)
-  have hgx : cr.sc.get x = some (.local sc.numLocal (.name x)) := by
-    unfold Scope.get; rw [n2]; exact regGet_regInsert_self _ _ _
-  rw [compileExpr_sexp, compileExpr_atom, compileAtom_new hg (by omega), Out.bind_ok]
-  simp only
-  rw [e2, Out.bind_ok, combine_bind,
-    combineBind_newLocal _ _ hgx (regOk_ne_none k2) (tyMatch_not_name m2)]
-  have hloc' : regOk (.local sc.numLocal cr.reg.getType) = true :=
-    kindOk_regOk (k := .loc) (by simp only [kindOk, decide_eq_true_eq]; omega)
-  refine ⟨_, rfl, by simp, ⟨?_, ?_, ?_, ?_⟩, ?_⟩
-  · intro y k τy hy
-    rw [lookup_cons] at hy
-    simp only
-    split at hy
-    · rename_i hxy
-      subst hxy
-      simp only [Option.some.injEq, Prod.mk.injEq] at hy
-      obtain ⟨rfl, rfl⟩ := hy
-      refine ⟨.local sc.numLocal cr.reg.getType, ?_, ?_, m2⟩
-      · rw [regGet_regSet_self]
-        have : regGet x cr.sc.named = some (.local sc.numLocal (.name x)) := hgx
-        rw [this]; rfl
-      · simp only [kindOk, decide_eq_true_eq]; omega
-    · rename_i hxy
-      obtain ⟨r, h1, h2, h3⟩ := hf1 y k τy hy
-      exact ⟨r, by rw [regGet_regSet_ne (fun e => hxy e.symm), n2]; exact h1, h2, h3⟩
-  · intro y hy
-    rw [lookup_cons] at hy
-    simp only
-    split at hy
-    · cases hy
-    · rename_i hxy
-      rw [regGet_regSet_ne (fun e => hxy e.symm), n2, regGet_regInsert_ne (fun e => hxy e.symm)]
-      exact hi.bwd y hy
-  · simp only
-    rw [l2, hi.nloc]
-    simp [numLocals]
-  · rw [lookup_cons]
-    split
-    · rfl
-    · exact hi.flag
-  · intro i hi'
-    simp only [List.nil_append, List.mem_append, List.mem_singleton] at hi'
-    rcases hi' with hi' | rfl
-    · exact i2 i hi'
-    · simp only [instrOk, Bool.and_eq_true]
-      exact ⟨⟨⟨rfl, hloc'⟩, hloc'⟩, k2⟩
 
 theorem checkPlain_some {Γ Γ' : Env} {x : Name} {e : Expr} (h : checkPlain Γ x e = some Γ') :
     ∃ τ, typeOf Γ e = some τ ∧
@@ -485,15 +348,6 @@ theorem checkPlain_some {Γ Γ' : Env} {x : Name} {e : Expr} (h : checkPlain Γ 
         exact Or.inl ⟨k, τx, rfl, hk, h.symm⟩
       · cases h
 
-theorem stmt_plain {Γ Γ' : Env} {sc : Scope} {x : Name} {e : Expr}
-    (hi : Inv Γ sc) (ht0 : sc.tmp = []) (h : checkPlain Γ x e = some Γ')
-    (hlit : Frag.litsOkE e = true) (htmp : tmps e ≤ 8) :
-    ∃ c, compileExpr (.sexp .bind (.atom (.name x)) e) sc = .ok c ∧ c.reg ≠ .none ∧ Inv Γ' c.sc ∧
-      ∀ i ∈ c.instrs, instrOk i = true := by
-  obtain ⟨τ, hty, ⟨k, τx, hx, hk, rfl⟩ | ⟨hx, hloc, rfl⟩⟩ := checkPlain_some h
-  · exact stmt_plain_known hi ht0 hx hk hty hlit htmp
-  · exact stmt_plain_new hi ht0 hx hloc hty hlit htmp
-
 theorem checkGuarded_some {Γ Γ' : Env} {x : Name} {c v : Expr} (h : checkGuarded Γ x c v = some Γ') :
     Γ' = Γ ∧ guardedTargetDeclared Γ x = true ∧ typeOf Γ c = some .bool ∧ ∃ τv, typeOf Γ v = some τv := by
   unfold checkGuarded at h
@@ -518,79 +372,9 @@ theorem tmps_guard {o : Op} (ho : o = .if ∨ o = .notIf ∨ o = .ewma) (c v : E
     tmps (.sexp o c v) = tmps c + tmps v := by
   rcases ho with rfl | rfl | rfl <;> simp [tmps, opSig]
 
-/-- **Stage lemma, statements.** -/
-theorem compile_stmt {Γ Γ' : Env} {sc : Scope} {e : Expr} (hi : Inv Γ sc) (ht0 : sc.tmp = [])
-    (hs : checkStmt Γ e = some Γ') (hne : e ≠ .none) (hlit : Frag.litsOkE e = true) :
-    ∃ c, compileExpr e sc = .ok c ∧ c.reg ≠ .none ∧ Inv Γ' c.sc ∧ ∀ i ∈ c.instrs, instrOk i = true := by
-  unfold checkStmt at hs
-  split at hs
-  · exact absurd rfl hne
-  · rename_i x rhs
-    split at hs
-    · rename_i htmp
-      have htmp : tmps rhs ≤ 8 := htmp
-      simp only [Frag.litsOkE, Bool.true_and] at hlit
-      unfold checkRhs at hs
-      split at hs
-      · rename_i o l r
-        simp only [Frag.litsOkE, Bool.and_eq_true] at hlit
-        split at hs
-        · obtain ⟨rfl, hx, hc, τv, hv⟩ := checkGuarded_some hs
-          have ho : Op.if = .if ∨ Op.if = .notIf ∨ Op.if = .ewma := Or.inl rfl
-          rw [tmps_guard ho] at htmp
-          exact stmt_guarded ho hi ht0 hx hc hv hlit.1 hlit.2 htmp
-        · obtain ⟨rfl, hx, hc, τv, hv⟩ := checkGuarded_some hs
-          have ho : Op.notIf = .if ∨ Op.notIf = .notIf ∨ Op.notIf = .ewma := Or.inr (Or.inl rfl)
-          rw [tmps_guard ho] at htmp
-          exact stmt_guarded ho hi ht0 hx hc hv hlit.1 hlit.2 htmp
-        · obtain ⟨rfl, hx, hc, hv⟩ := checkEwma_some hs
-          have ho : Op.ewma = .if ∨ Op.ewma = .notIf ∨ Op.ewma = .ewma := Or.inr (Or.inr rfl)
-          rw [tmps_guard ho] at htmp
-          exact stmt_guarded ho hi ht0 hx hc hv hlit.1 hlit.2 htmp
-        · exact stmt_plain hi ht0 hs (by simp only [Frag.litsOkE, Bool.and_eq_true]; exact hlit) htmp
-      · exact stmt_plain hi ht0 hs hlit htmp
-    · cases hs
-  · cases hs
-
-/-! ## Bodies, conditions, events -/
+/-! ## Conditions -/
 
 theorem Inv.clearTmps {Γ : Env} {sc : Scope} (hi : Inv Γ sc) : Inv Γ sc.clearTmps := hi.congr rfl rfl
-
-theorem compile_body {Γ' : Env} : ∀ (body : List Expr) (Γ : Env) (sc : Scope), Inv Γ sc →
-    checkBody Γ body = some Γ' → body.all Frag.litsOkE = true →
-    ∃ is sc', compileBody body sc = .ok (is, sc') ∧ Inv Γ' sc' ∧ ∀ i ∈ is, instrOk i = true := by
-  intro body
-  induction body with
-  | nil =>
-    intro Γ sc hi hb _
-    simp only [checkBody, Option.some.injEq] at hb
-    subst hb
-    exact ⟨[], sc, rfl, hi, by simp⟩
-  | cons e rest ih =>
-    intro Γ sc hi hb hlit
-    simp only [List.all_cons, Bool.and_eq_true] at hlit
-    simp only [checkBody] at hb
-    cases hs : checkStmt Γ e with
-    | none => rw [hs] at hb; cases hb
-    | some Γ1 =>
-      rw [hs] at hb
-      simp only at hb
-      rw [compileBody]
-      by_cases hne : e = .none
-      · subst hne
-        simp only [checkStmt, Option.some.injEq] at hs
-        subst hs
-        rw [if_pos rfl]
-        exact ih Γ sc hi hb hlit.2
-      · rw [if_neg hne]
-        obtain ⟨c, e1, hr, hi1, hin⟩ := compile_stmt hi.clearTmps rfl hs hne hlit.1
-        obtain ⟨is, sc', e2, hi2, hin2⟩ := ih Γ1 c.sc hi1 hb hlit.2
-        rw [e1, Out.bind_ok, if_neg hr, e2, Out.bind_ok]
-        refine ⟨_, _, rfl, hi2, ?_⟩
-        intro i hi'
-        rcases List.mem_append.mp hi' with h | h
-        · exact hin i h
-        · exact hin2 i h
 
 theorem instrOk_setLastRes {is : List Instr} {r : Reg} (h : ∀ i ∈ is, instrOk i = true) (hr : regOk r = true) :
     ∀ i ∈ setLastRes is r, instrOk i = true := by
@@ -651,48 +435,9 @@ theorem compile_flag {Γ : Env} {sc : Scope} {f : Expr} (hi : Inv Γ sc) (hc : c
   | cmd c => cases hshape
   | none => cases hshape
 
-theorem compile_events {Γ' : Env} : ∀ (evs : List Event) (Γ : Env) (sc : Scope) (idx : Nat), Inv Γ sc →
-    checkEvents Γ evs = some Γ' → Frag.LitsOk evs = true →
-    ∃ cp, compileEvents evs idx sc = .ok cp ∧ Inv Γ' cp.sc ∧ ∀ i ∈ cp.instrs, instrOk i = true := by
-  intro evs
-  induction evs with
-  | nil =>
-    intro Γ sc idx hi hb _
-    simp only [checkEvents, Option.some.injEq] at hb
-    subst hb
-    exact ⟨⟨[], [], sc⟩, rfl, hi, by simp⟩
-  | cons ev rest ih =>
-    intro Γ sc idx hi hb hlit
-    simp only [Frag.LitsOk, List.all_cons, Bool.and_eq_true] at hlit
-    simp only [checkEvents] at hb
-    split at hb
-    · rename_i hc
-      cases hbd : checkBody Γ ev.body with
-      | none => rw [hbd] at hb; cases hb
-      | some Γ1 =>
-        rw [hbd] at hb
-        simp only at hb
-        obtain ⟨fi, sc1, e1, hi1, hin1⟩ := compile_flag hi hc hlit.1.1
-        obtain ⟨bi, sc2, e2, hi2, hin2⟩ := compile_body ev.body Γ sc1 hi1 hbd hlit.1.2
-        obtain ⟨cp, e3, hi3, hin3⟩ := ih Γ1 sc2 (idx + fi.length + bi.length) hi2 hb hlit.2
-        rw [compileEvents, e1, Out.bind_ok]
-        simp only
-        rw [e2, Out.bind_ok]
-        simp only
-        rw [e3, Out.bind_ok]
-        refine ⟨_, rfl, hi3, ?_⟩
-        intro i hi'
-        simp only [List.mem_append] at hi'
-        rcases hi' with (h | h) | h
-        · exact hin1 i h
-        · exact hin2 i h
-        · exact hin3 i h
-    · cases hb
+/-! ## The `Stratified` conjunct of `WellTypedStratified` (the former check) is implied by its typing conjunct
 
-/-! ## The `Stratified` conjunct of `WellTyped` is implied by the typing conjunct
-
-(it is kept in `WellTyped` because the fragment is part of the statement of C20; it excludes nothing
-that `checkEvents` lets through) -/
+(it excludes nothing that `checkEvents` lets through: `Accept2.wellTypedStratified_eq`) -/
 
 theorem typeOf_pure {Γ : Env} : ∀ (e : Expr) (τ : Ty), typeOf Γ e = some τ → Frag.pureE e = true := by
   intro e
